@@ -46,6 +46,7 @@ RULES = {
     "C01.R7": "stored FFT length >= longest record on every path (zero padding, never truncation)",
 }
 
+P = "C01."     # rule-id prefix (C17 reuses the diffuse-field and smoothing-call rules under its own ids)
 HOMOG = {name: 1 for name in LINEAR_FUNCS}
 HOMOG.update({"proj": 2, "combine": 2})
 
@@ -157,7 +158,7 @@ def _smoothing_call(ck: Checker, f, scope: List[ast.stmt], raw_name: str, dt_exp
     q = f.qualname
     calls = [c for st in scope for c in calls_in(st) if isinstance(c.func, ast.Subscript) and unparse(c.func.value) == "SMOOTHING_OPERATORS"]
     if len(calls) != 1:
-        ck.violation("C01.R3", q, f"{what}: smoothing call", f"expected one SMOOTHING_OPERATORS[...] call, found {len(calls)}", loc=f.loc())
+        ck.violation(P + "R3", q, f"{what}: smoothing call", f"expected one SMOOTHING_OPERATORS[...] call, found {len(calls)}", loc=f.loc())
         return None
     c = calls[0]
     args = [unparse(x) for x in c.args]
@@ -176,14 +177,14 @@ def _smoothing_call(ck: Checker, f, scope: List[ast.stmt], raw_name: str, dt_exp
     frq = env.get(args[0]) if args else None
     good_f = frq in (f"np.fft.rfftfreq(settings.fft_settings['n'], {dt_expr})", f"rfftfreq(settings.fft_settings['n'], {dt_expr})")
     if good and good_f:
-        ck.ok("C01.R3", q, norm_key(c, 110), detail=f"{what}: operator/bandwidth from settings; frequencies of the padded FFT at the group's time step; evaluated at fcs")
+        ck.ok(P + "R3", q, norm_key(c, 110), detail=f"{what}: operator/bandwidth from settings; frequencies of the padded FFT at the group's time step; evaluated at fcs")
     else:
-        ck.violation("C01.R3", q, norm_key(c, 110),
+        ck.violation(P + "R3", q, norm_key(c, 110),
                      f"{what}: the smoothing call is not OPERATORS[settings.smoothing['operator']](rfftfreq(settings.fft_settings['n'], {dt_expr}), {raw_name}, fcs, "
                      f"settings.smoothing['bandwidth']) (args {args}; operator {env.get(opk)}; bandwidth {env.get(args[3]) if len(args) > 3 else None}; frequencies {frq})",
                      loc=f.loc(c))
-    ck.ok("C01.R6", q, "smoothing evaluated at fcs", nontrivial=False) if len(args) > 2 and args[2] == "fcs" else \
-        ck.violation("C01.R6", q, "smoothing centre frequencies", f"the smoothing operator is evaluated at `{args[2] if len(args) > 2 else None}`, not at fcs", loc=f.loc(c))
+    ck.ok(P + "R6", q, "smoothing evaluated at fcs", nontrivial=False) if len(args) > 2 and args[2] == "fcs" else \
+        ck.violation(P + "R6", q, "smoothing centre frequencies", f"the smoothing operator is evaluated at `{args[2] if len(args) > 2 else None}`, not at fcs", loc=f.loc(c))
     return c
 
 
@@ -288,14 +289,14 @@ def _diffuse(ck: Checker, prog: Program):
         st = env.get(nm)
         want = f"_rpds_single_component([record.{nm[-2:]} for record in records], settings)"
         if st is not None and unparse(st.value) == want:
-            ck.ok("C01.R4", q, f"{nm} from component {nm[-2:]}")
+            ck.ok(P + "R4", q, f"{nm} from component {nm[-2:]}")
         else:
-            ck.violation("C01.R4", q, nm, f"`{nm}` is computed as `{unparse(st.value) if st is not None else None}`; expected {want}", loc=f.loc())
+            ck.violation(P + "R4", q, nm, f"`{nm}` is computed as `{unparse(st.value) if st is not None else None}`; expected {want}", loc=f.loc())
     sp_st = env.get("spectra")
     if sp_st is not None and unparse(sp_st.value) in ("np.array([psd_ns + psd_ew, psd_vt])", "np.array([psd_ew + psd_ns, psd_vt])"):
-        ck.ok("C01.R4", q, norm_key(sp_st), detail="row 0 = Pns + Pew, row 1 = Pvt")
+        ck.ok(P + "R4", q, norm_key(sp_st), detail="row 0 = Pns + Pew, row 1 = Pvt")
     else:
-        ck.violation("C01.R4", q, "diffuse-field rows", f"rows are `{unparse(sp_st.value) if sp_st is not None else None}`; expected [Pns + Pew, Pvt]", loc=f.loc())
+        ck.violation(P + "R4", q, "diffuse-field rows", f"rows are `{unparse(sp_st.value) if sp_st is not None else None}`; expected [Pns + Pew, Pvt]", loc=f.loc())
     _smoothing_call(ck, f, f.node.body, "spectra", "records[0].vt.dt_in_seconds", "diffuse field")
     rets = [r for r in own_nodes(f.node) if isinstance(r, ast.Return)]
     good = False
@@ -308,10 +309,10 @@ def _diffuse(ck: Checker, prog: Program):
             got = T.tr(c.args[1])
             good = equal(got, sp.sqrt(T.env["hor"] / T.env["ver"])) and unparse(c.args[0]) == "fcs"
     if good:
-        ck.ok("C01.R4", q, norm_key(rets[0], 110), detail="sqrt(smoothed (Pns+Pew) / smoothed Pvt) at fcs")
-        ck.ok("C01.R5", q, "power ratio under sqrt: degree (+1, -1) in amplitude", nontrivial=False)
+        ck.ok(P + "R4", q, norm_key(rets[0], 110), detail="sqrt(smoothed (Pns+Pew) / smoothed Pvt) at fcs")
+        ck.ok(P + "R5", q, "power ratio under sqrt: degree (+1, -1) in amplitude", nontrivial=False)
     else:
-        ck.violation("C01.R4", q, "diffuse-field ratio", "the curve is not sqrt(smooth_spectra[0] / smooth_spectra[1]) at fcs", loc=f.loc())
+        ck.violation(P + "R4", q, "diffuse-field ratio", "the curve is not sqrt(smooth_spectra[0] / smooth_spectra[1]) at fcs", loc=f.loc())
 
 
 def _r7(ck: Checker, prog: Program):
